@@ -1039,7 +1039,10 @@ fn race_case(rng: &mut Rng, out: &mut Out, ctl: &Arc<Ctl>, wl: &Arc<WriteLog>, d
     let blocks = rng.range(30, 44);
     let path = format!("{}/race{}.feox", dir, idx);
     let _ = std::fs::remove_file(&path);
-    let store = match FeoxStore::builder().hash_bits(6).enable_ttl(false).no_memory_limit()
+    // deferred: the generation being read is a TTL-only one (update_ttl on an offloaded value), whose
+    // bytes still live in its predecessor's extent; the pin has to protect THAT extent
+    let deferred = rng.chance(1, 4);
+    let store = match FeoxStore::builder().hash_bits(6).enable_ttl(deferred).no_memory_limit()
         .device_path(path.clone()).file_size(blocks * BS).enable_caching(cache).build() {
         Ok(s) => Arc::new(s),
         Err(_) => return,
@@ -1053,6 +1056,10 @@ fn race_case(rng: &mut Rng, out: &mut Out, ctl: &Arc<Ctl>, wl: &Arc<WriteLog>, d
     let Some(r1) = snap.iter().find(|r| r.key == key) else { return };
     let (s1, n1) = (r1.sector, (l1 as u64 + 200).div_ceil(BS));
     if s1 == 0 || r1.resident { out.count("race skipped (value still resident)"); return; }
+    if deferred {
+        if store.update_ttl(&key, 3600).is_err() { out.count("race skipped (update_ttl refused)"); return; }
+        out.count("race on a deferred TTL-only generation");
+    }
     {
         let mut g = ctl.slots.lock().unwrap();
         g.clear();
@@ -1060,9 +1067,9 @@ fn race_case(rng: &mut Rng, out: &mut Out, ctl: &Arc<Ctl>, wl: &Arc<WriteLog>, d
     }
     let h = { let c = ctl.clone(); let st = store.clone(); std::thread::spawn(move || worker(0, c, st)) };
     ctl.park_reads.store(true, O::SeqCst);
-    let mode = rng.below(3); // 0: reader parked before the pin, 1: holding the pin, 2: before the pin + retirer parked at its marker write
+    let mode = if deferred { 1 } else { rng.below(3) }; // 0: reader parked before the pin, 1: holding the pin, 2: before the pin + retirer parked at its marker write
     let pinned_mode = mode == 1;
-    let delete = rng.chance(1, 3);
+    let delete = !deferred && rng.chance(1, 3);
     let reader = match rng.below(3) { 0 => Op::Get { bytes: false }, 1 => Op::Get { bytes: true }, _ => Op::Cas { exp: Val { kind: Kind::Raw, n: 0 }, new: Val { kind: Kind::Raw, n: 1 }, ts: None } };
     out.count(match mode { 1 => "race reader parked holding the pin", 0 => "race reader parked before the pin", _ => "race reader enters between the retirer's check and its marker write" });
     out.count(&format!("race reader {}", reader.line().split(' ').next().unwrap()));
@@ -1079,8 +1086,14 @@ fn race_case(rng: &mut Rng, out: &mut Out, ctl: &Arc<Ctl>, wl: &Arc<WriteLog>, d
     wl.blocked.lock().unwrap().clear();
     wl.enabled.store(true, O::SeqCst);
     // the writer side (this thread is not under the controller)
-    let r = if delete { store.delete(&key).map(|_| ()) } else { store.insert(&key, &v2).map(|_| ()) };
+    // (in the deferred variant the key is left alone: flushing the TTL-only generation is what retires the extent)
+    let r = if deferred { Err(feoxdb::FeoxError::KeyNotFound) } else if delete { store.delete(&key).map(|_| ()) } else { store.insert(&key, &v2).map(|_| ()) };
     let mutated = r.is_ok();
+    let mut deferred_flush = None;
+    if deferred && parked {
+        let st = store.clone();
+        deferred_flush = Some(std::thread::spawn(move || { let _ = st.flush(); }));
+    }
     let mut fillers = vec![];
     for i in 0..rng.range(1, 4) {
         let k = format!("filler-{}-{}", idx, i).into_bytes();
@@ -1168,6 +1181,13 @@ fn race_case(rng: &mut Rng, out: &mut Out, ctl: &Arc<Ctl>, wl: &Arc<WriteLog>, d
             }
         }
         _ => out.failures.push("C18\ta reader parked in its device read never returned after being released\t-".into()),
+    }
+    if let Some(fl) = deferred_flush {
+        let t1 = Instant::now();
+        while !fl.is_finished() && t1.elapsed() < WATCHDOG { std::thread::sleep(Duration::from_millis(1)); }
+        if fl.is_finished() { let _ = fl.join(); } else {
+            out.failures.push("C18\tflush() of a deferred generation did not return after the reader released its pin\t-".into());
+        }
     }
     ctl.park_reads.store(false, O::SeqCst);
     {
